@@ -14,7 +14,7 @@ void plan_from_sut(PlanSnap& out, const SutPlan& in);
 struct HookEv {
 	uint8_t method, cls, inj, flavour, step, state_id, ev_type;
 	uint64_t ev_value; const void* ev_addr;
-	const void* self; const void* ctx_a; const void* ctx_b; uint64_t ctx_tag;
+	const void* self; uint32_t self_hits; const void* ctx_a; const void* ctx_b; uint64_t ctx_tag;
 	SutTrans request, pending, current, previous;
 	uint8_t has_pending, has_current, has_previous;
 	uint8_t active[32]; uint8_t active_tmpl_ok;
@@ -81,7 +81,7 @@ struct OpExec {                         // one executed operation on one node
 	OpExec() { memset(payload, 0, sizeof(payload)); memset(mask, 0, sizeof(mask)); }
 };
 
-enum Role { ROLE_AUTH, ROLE_FORK, ROLE_REPLICA };
+enum Role { ROLE_AUTH, ROLE_FORK, ROLE_REPLICA, ROLE_ZOMBIE /* moved-from: only destroyed, never judged */ };
 
 struct Node {
 	void* inst = 0; int slot = -1; bool alive = false; int role = ROLE_AUTH; int ctx_slot = 0; uint64_t tag = 0;
@@ -112,3 +112,5 @@ static inline int n_inj(int cls) {
 	int k = cls == SUT_INVALID ? g_info->root_kind : g_info->kind[cls];
 	return k == K_INJ1 ? 1 : k == K_INJ2 ? 2 : k == K_INJ3 ? 3 : 0;
 }
+// a state class that defines nothing itself and has one injection: the only invocation of a delivery is injection 1
+static inline int own_inj(int cls) { return (cls != SUT_INVALID && g_info->kind[cls] == K_INJ1N) ? 1 : 0; }
